@@ -208,6 +208,16 @@ fn y_matrix(
 }
 
 // Verification hook (only compiled with `--cfg alpha_g_verif`).
+// The cross-talk matrix of a block of `n` wires, row by row.
+#[cfg(alpha_g_verif)]
+pub(crate) fn verif_a_matrix(n: usize) -> Vec<f64> {
+    let a = a_matrix(n);
+    (0..n)
+        .flat_map(|i| (0..n).map(move |j| (i, j)))
+        .map(|(i, j)| a.read(i, j))
+        .collect()
+}
+// Verification hook (only compiled with `--cfg alpha_g_verif`).
 #[cfg(alpha_g_verif)]
 pub(crate) fn verif_wire_response() -> Vec<f64> {
     WIRE_RESPONSE.clone()
